@@ -4,7 +4,11 @@
     observation made after it on the implementation.
       corr:*  the model run on the same history disagrees with the observation;
       prop:*  the property's checker, evaluated on the implementation's observations alone
-              (previous observation, operation, next observation), fails. *)
+              (previous observation, operation, next observation, and a ledger of the receiver's
+              own Accept / Decline messages kept along the history), fails.
+    The three passes (model, step checker, acceptance ledger) run independently over the whole
+    history; each reports its first failing step, so a model disagreement does not hide a later
+    failure of the property's checker. *)
 From Coq Require Import ZArith PArith NArith List String Bool.
 From PV Require Export Quarantine.Quarantine Corr.CorrBase.
 Import ListNotations.
@@ -179,20 +183,103 @@ Definition prop_step (h : addr) accts dens (p : obs) (x : op) (o : obs) : list s
      tag (same_balances accts dens p o && same_records dens p o && same_settings accts p o)
          "prop:rejected_op_changed_state").
 
-(** ** Running the model along the observed history *)
-Record frame := Frame { f_post : state; f_res : result; f_prev : obs; f_op : op; f_obs : obs }.
+(** ** The acceptance ledger: which senders of each record the receiver HAS ACCEPTED, derived
+    from the receiver's own accepted Accept / Decline messages only (never from the module's
+    accepted list).  A record that first appears has no accepted sender (bank sends create
+    single-sender records from a sender that is not auto-accepted; genesis records are all
+    unaccepted).  Accept(to, froms) adds the named senders of every record to [to]; Decline(to,
+    froms) removes them: the receiver's last answer counts. *)
+Definition ledger := list (rkey * list addr).
+Definition lget (L : ledger) (k : rkey) : list addr := match aget rkey_eqb k L with Some l => l | None => [] end.
+Definition osenders (r : orec) : list addr := r_unacc r ++ r_acc r.
+Definition ledger0 (o0 : obs) : ledger := map (fun r => (okey r, [])) (o_recs o0).
 
-Fixpoint scan (h : addr) (s : state) (p : obs) (steps : list (op * obs)) : list frame :=
+Definition ledger_step (L : ledger) (p : obs) (x : op) (o : obs) : ledger :=
+  if o_ok o then
+    map (fun r' =>
+           let k := okey r' in
+           let prior := match ofind k (o_recs p) with Some _ => lget L k | None => [] end in
+           (k, match x with
+               | OAccept to froms _ =>
+                   if Pos.eqb (r_to r') to then prior ++ filter (fun f => mem f (osenders r')) froms else prior
+               | ODecline to froms _ =>
+                   if Pos.eqb (r_to r') to then filter (fun a => negb (mem a froms)) prior else prior
+               | _ => prior
+               end)) (o_recs o)
+  else L.
+
+(* a record may only be paid out (disappear at an accepted Accept) when every one of its senders
+   is accepted by the ledger or named in this very Accept *)
+Definition prop_payout (L : ledger) (p : obs) (x : op) (o : obs) : list string :=
+  match x with
+  | OAccept to froms _ =>
+      if o_ok o then
+        tag (forallb (fun r => match ofind (okey r) (o_recs o) with
+                               | Some _ => true
+                               | None => forallb (fun f => mem f froms || mem f (lget L (okey r))) (osenders r)
+                               end) (o_recs p))
+            "prop:payout_while_a_sender_was_last_declined_or_never_accepted"
+      else []
+  | _ => []
+  end.
+
+(* the module's accepted list of every record is exactly what the receiver has accepted *)
+Definition prop_accepted_lists (L' : ledger) (o : obs) : list string :=
+  tag (forallb (fun r => forallb (fun f => mem f (lget L' (okey r))) (r_acc r)) (o_recs o))
+      "prop:sender_listed_accepted_against_receivers_last_answer" ++
+  tag (forallb (fun r => forallb (fun f => mem f (r_acc r) || negb (mem f (osenders r))) (lget L' (okey r))) (o_recs o))
+      "prop:accepted_sender_not_listed_accepted".
+
+(* an Accept naming every unaccepted sender of some record must not be refused (payout liveness) *)
+Definition prop_liveness (p : obs) (x : op) (o : obs) : list string :=
+  match x with
+  | OAccept to froms _ =>
+      tag (o_ok o || negb (existsb (paid_out to froms) (o_recs p))) "prop:accept_of_all_senders_refused"
+  | _ => []
+  end.
+
+(* restricted marker coins only move from a sender with Transfer access (or from the holder) *)
+Definition prop_restricted (h : addr) (xf : list (denom * list addr)) (x : op) (o : obs) : list string :=
+  tag (negb (o_ok o) ||
+       forallb (fun t => let '(from, _, c) := t in
+                  forallb (fun d => match aget Pos.eqb d xf with
+                                    | None => true
+                                    | Some l => mem from l || Pos.eqb from h
+                                    end) (denoms c)) (transfers x))
+      "prop:restricted_coin_moved_without_transfer_access".
+
+(** ** Running the three passes along the observed history *)
+Record frame := Frame { f_post : state; f_res : result; f_obs : obs }.
+
+Fixpoint scan (h : addr) (s : state) (steps : list (op * obs)) : list frame :=
   match steps with
   | [] => []
   | (x, o) :: r =>
       let '(s', res) := step h s x in
-      Frame s' res p x o :: scan h s' o r
+      Frame s' res o :: scan h s' r
   end.
 
-Definition check_frame (h : addr) accts dens (f : frame) : list string :=
-  corr_step accts dens (f_post f) (f_res f) (f_obs f) ++
-  prop_step h accts dens (f_prev f) (f_op f) (f_obs f).
+Record pframe := PFrame { pf_prev : obs; pf_op : op; pf_obs : obs; pf_led : ledger; pf_led' : ledger }.
+
+Fixpoint pscan (L : ledger) (p : obs) (steps : list (op * obs)) : list pframe :=
+  match steps with
+  | [] => []
+  | (x, o) :: r =>
+      let L' := ledger_step L p x o in
+      PFrame p x o L L' :: pscan L' o r
+  end.
+
+Definition check_corr accts dens (f : frame) : list string :=
+  corr_step accts dens (f_post f) (f_res f) (f_obs f).
+
+Definition check_prop (h : addr) accts dens xf (f : pframe) : list string :=
+  prop_step h accts dens (pf_prev f) (pf_op f) (pf_obs f) ++
+  prop_liveness (pf_prev f) (pf_op f) (pf_obs f) ++
+  prop_restricted h xf (pf_op f) (pf_obs f) ++
+  prop_accepted_lists (pf_led' f) (pf_obs f).
+
+Definition check_payout (f : pframe) : list string :=
+  prop_payout (pf_led f) (pf_prev f) (pf_op f) (pf_obs f).
 
 Definition check (c : case) : list string :=
   match c with
@@ -201,7 +288,11 @@ Definition check (c : case) : list string :=
       | None => ["corr:genesis_rejected_by_model"]
       | Some s0 =>
           match corr_state accts dens s0 o0 ++ prop_state h dens o0 with
-          | [] => first_failure (check_frame h accts dens) 0 (scan h s0 o0 steps)
+          | [] =>
+              let pfs := pscan (ledger0 o0) o0 steps in
+              first_failure (check_corr accts dens) 0 (scan h s0 steps) ++
+              first_failure (check_prop h accts dens (g_xfer g)) 0 pfs ++
+              first_failure check_payout 0 pfs
           | e => map (fun t => String.append t " @genesis") e
           end
       end
